@@ -9,7 +9,7 @@ CONSTANTS
   BFaults <- BFaultsNone
   Ras <- RasNone
   Modes = {"call", "exec"}
-  NCalls = 4
+  NCalls = 3
   Gaps = {0, 1, 2, 3}
   PConfigs <- PConfigsC07
   RecordHist = FALSE
